@@ -137,11 +137,23 @@ def run_case(case):
             if R.ns and not np.array_equal(np.asarray(tp.slack_positions), R.S):
                 bad("shape", "slack layout differs")
         # ---- evaluations at several points
-        npts = 3
+        zl = spec.meta.get("zero_lb") or []
+        npts = 3 if not zl else 7
         for t in range(npts):
             if fpe:
                 break
             z = test_point(rng, np.where(np.isfinite(R.var_lb), R.var_lb, -np.inf), R.var_ub)
+            if zl and t >= 2:
+                # points that differ in *which* variables sit exactly at 0: the stored sparsity pattern of the
+                # user's Jacobian / Hessian changes from point to point (often with the same number of entries)
+                for j in range(spec.n):
+                    lo = R.var_lb[j] if np.isfinite(R.var_lb[j]) else -1.0
+                    hi = R.var_ub[j] if np.isfinite(R.var_ub[j]) else lo + 2.0
+                    z[j] = 0.5 * (lo + hi) + 0.25 * (hi - lo) * rng.uniform(-1, 1)
+                for j in zl:
+                    if rng.random() < 0.5:
+                        z[j] = 0.0
+                bump("points_with_pattern_switch")
             y = rng.normal(size=R.m) * 10.0 ** rng.uniform(-3, 3)
             xu = R.x_user(z)
             if _range_bad(xu[z[: R.n] != 0]) or _range_bad(np.ldexp(y, w.cw - w.ow)[y != 0]):
@@ -229,13 +241,13 @@ def finalize(agg, tier):
     return {
         "rule": "generated problems of all families x sparse format (COO/CSR/CSC, optionally non-canonical with "
                 "duplicates and explicit zeros) x scaling (none, custom weights in [-40,40], extreme custom weights "
-                "+-500, GradJac, Nominal, KKT) x 3 evaluation points (on/inside/outside bounds) with random "
+                "+-500, GradJac, Nominal, KKT) x 3 evaluation points (on/inside/outside bounds; 7 for specs with structurally sparse derivatives, five of them differing in which variables sit exactly at 0 so that the stored pattern of the user's matrices changes between evaluations of the same transformed problem) with random "
                 "multipliers of magnitude 1e-3..1e3, plus start-point mapping for x0 None/scalar/array/out-of-bounds "
                 "and round trip; a case is non-trivial when every comparison was carried out without the scaling "
                 "itself over- or underflowing (those are set aside and counted); distinct by (spec seed, scaling, format)",
         "floors": {"compared_cons": 500, "compared_cons_jac": 500, "compared_lag_hess": 1000,
                    "compared_initial_iterate": 500, "compared_restore": 500, "scaling_custom": 100,
-                   "scaling_GradJac": 50, "scaling_KKT": 50, "scaling_Nominal": 50},
+                   "scaling_GradJac": 50, "scaling_KKT": 50, "scaling_Nominal": 50, "points_with_pattern_switch": 300},
         "assumptions": ["bit-level oracle: ldexp by integer weights is exact absent over/underflow; cases where the "
                         "scaling over- or underflows are set aside per the statement ('absent overflow')"],
     }
